@@ -31,15 +31,18 @@ ASSUMPTIONS = [
 ]
 
 B_ALPHA = [0, 1, -1, 2, -3, 0.5]
-A0_ALPHA = [1, -1, 2, -0.5, F(1, 2)]
+A0_ALPHA = [1, -1, 2, -0.5, F(1, 2), 3, 0.3]
 SPARSE = [({0: 1, 5: -1}, {0: 1}), ({3: 2}, {0: 1}), ({0: 1}, {0: 1, 4: 0.5}),
-          ({2: -1, 6: 3}, {0: 2, 3: -1}), ({0: 1, 1: 1}, {0: -1, 7: 1})]
+          ({2: -1, 6: 3}, {0: 2, 3: -1}), ({0: 1, 1: 1}, {0: -1, 7: 1}),
+          # delays of two digits (the generated names m10, d11 ... sort differently as strings)
+          ({0: 1}, {0: 1, 10: 0.5}), ({0: 1, 10: -1}, {0: 1, 9: 0.5, 11: -0.25}),
+          ({1: 2, 12: 1}, {0: 2, 2: 1, 12: -1}), ({0: 1, 9: 1, 10: 2, 11: 3}, {0: 3, 1: 1, 10: 1, 13: -2})]
 
 
 def bounds(run):
   return {"coefficient_alphabet": [str(c) for c in B_ALPHA],
           "a0_alphabet": [str(c) for c in A0_ALPHA],
-          "max_len_full": run.pick(3, 4), "max_len_variants": 2,
+          "max_len_numerator": run.pick(3, 4), "max_len_denominator": 3, "max_len_variants": 2,
           "input_length_full": 5, "input_lengths_variants": [0, 1, 2, 6],
           "memory_kinds": MEMS, "zero_kinds": ZEROS, "constructors": CTORS}
 
@@ -185,14 +188,14 @@ def run_filter(case):
   return R(None, nontriv, shape)
 
 
-CONCRETE = [[0] * 10, [1] * 10, [F(1, 2), -3, 0, 7, F(-2, 3), 1, 4, 4, -1, F(5, 7)],
-            [1] + [0] * 9]
+CONCRETE = [[0] * 30, [1] * 30, [F(1, 2), -3, 0, 7, F(-2, 3), 1, 4, 4, -1, F(5, 7)] * 3,
+            [1] + [0] * 29]
 
 
 def gen_full(run):
   ml = run.pick(3, 4)
   i = 0
-  avs = list(vectors(ml, B_ALPHA, first=A0_ALPHA))
+  avs = list(vectors(3, B_ALPHA, first=A0_ALPHA))      # denominators up to length 3 in both tiers
   for b in run.rot(list(vectors(ml, B_ALPHA))):
     for a in avs:
       i += 1
@@ -214,7 +217,7 @@ def gen_variants(run):
       for memk in MEMS:
         for zk in ZEROS:
           yield ({str(k): v for k, v in bd.items()}, {str(k): v for k, v in ad.items()},
-                 ctor, memk, zk, 9, 2)
+                 ctor, memk, zk, 9 if max(list(bd) + list(ad)) < 8 else 30, 2)
 
 
 # ------------------------------------------------------- negative delays
